@@ -55,7 +55,7 @@ class C12(core.Check):
         'pos:page-last', 'pos:next-page-first', 'pos:prev-page-last', 'zone:GLOBAL', 'zone:redefined-GLOBAL', 'zone:named',
         'rel:from-end', 'rel:from-start', 'slice:same-page', 'slice:other-page', 'w:non-byte-multiple', 'w:byte-multiple',
         'expect:ACCEPT', 'expect:REJECT', 'muted-statement', 'second-step-of-a-macro', 'value-as-expression',
-        'kind:valid_address/indirect_numeric', 'kind:valid_address/deferred_numeric']}
+        'kind:valid_address/indirect_numeric', 'kind:valid_address/deferred_numeric', 'output:none', 'output:none+listing']}
 
     def one(self, conf, text, op, addr, tags, addr_bits=16, endian='big', zones=None, gz=None, origin=None, opcode_bits=8,
             fmt='json'):
@@ -215,6 +215,15 @@ class C12(core.Check):
                 t['tags'] = sorted((set(t['tags']) - {'expect:ACCEPT', 'expect:REJECT', 'expect:DONT_CARE'}) |
                                    {'second-step-of-a-macro', 'expect:' + m['exp']['kind']})
                 yield t
+            if k % 5 in (2, 4):
+                # no image asked for (with or without a listing instead): the statement is judged all the same
+                t = copy.deepcopy(c)
+                mode = 'none' if k % 5 == 2 else 'none+listing'
+                r = t['runs'][0]
+                r['argv'] = [a_ for a_ in r['argv']] + ['-n'] + (['-p', '-t', 'listing'] if mode == 'none+listing' else [])
+                t['meta']['out_mode'] = mode
+                t['tags'] = sorted(set(t['tags']) | {'output:' + mode})
+                yield t
             if k % 3 == 0:
                 t = copy.deepcopy(c)
                 r = t['runs'][0]
@@ -299,6 +308,14 @@ class C12(core.Check):
                 return [core.violated(f'violating-value-accepted/{kind}/{pos}' + (f'/{wcl}' if wcl else ''), det, buckets=tags, nt=nt)]
             return [core.held(buckets=tags, nt=nt)]
         img = (o.get('files') or {}).get('out.bin')
+        if m.get('out_mode'):
+            det['options'] = m['out_mode']
+            if o.get('exit') != 0:
+                det['stderr'] = (o.get('stderr') or '')[-300:]
+                return [core.violated(f'satisfying-value-rejected/{kind}/{pos}', det, buckets=tags, nt=nt)]
+            if img is not None:
+                return [core.violated('image-written-although-none-was-asked-for', det, buckets=tags, nt=nt)]
+            return [core.held(buckets=tags, nt=nt)]
         if o.get('exit') != 0 or img is None:
             det['stderr'] = (o.get('stderr') or '')[-300:]
             return [core.violated(f'satisfying-value-rejected/{kind}/{pos}', det, buckets=tags, nt=nt)]
